@@ -293,6 +293,7 @@ func (c20) Gen(rng *rand.Rand, tier string, emit func(string)) {
 	if tier == "thorough" {
 		c20Corpus(tier, func(limbs int, op string) bool { return rng.Intn(3) == 0 }, emit)
 	}
+	c20Frontier(rng, tier, emit)
 	for i := 0; i < n; i++ {
 		limbs := []int{1, 2, 4}[rng.Intn(3)]
 		ops := c20Ops[limbs]
@@ -334,6 +335,98 @@ func (c20) Gen(rng *rand.Rand, tier string, emit func(string)) {
 			c = fmt.Sprintf("%s %s %s %s", c20Name(limbs), op, u64s(a), u64s(b))
 		}
 		emit(c)
+	}
+}
+
+// c20Frontier emits operand pairs lying on the FRONTIER of the overflow / underflow / exact-division conditions:
+// a*b, a+b within a few units of 2^W (both sides), a-b around 0, a = q*b + r with r in {0, 1, b-1}. Random and
+// word-boundary operands almost never land there (a product that overflows by a carry out of the last partial
+// sum, a quotient digit that needs its correction step), yet that is where a wrong carry test shows.
+func c20Frontier(rng *rand.Rand, tier string, emit func(string)) {
+	rounds := 250
+	if tier == "thorough" {
+		rounds = 6000
+	}
+	one := big.NewInt(1)
+	for _, limbs := range []int{1, 2, 4} {
+		w := uint(limbs * 64)
+		max := new(big.Int).Sub(new(big.Int).Lsh(one, w), one) // 2^W - 1
+		name := c20Name(limbs)
+		fits := func(x *big.Int) bool { return x.Sign() >= 0 && x.Cmp(max) <= 0 }
+		for r := 0; r < rounds; r++ {
+			// a multiplier of 1..W bits, the other factor next to (2^W-1)/a
+			var a *big.Int
+			if rng.Intn(2) == 0 {
+				a = new(big.Int).SetUint64(c20Limb(rng))
+			} else {
+				a = toBig(c20Val(rng, limbs))
+			}
+			if a.Sign() == 0 {
+				a.SetInt64(int64(rng.Intn(5) + 1))
+			}
+			q := new(big.Int).Div(max, a)
+			for d := int64(-2); d <= 2; d++ {
+				b := new(big.Int).Add(q, big.NewInt(d))
+				if !fits(b) {
+					continue
+				}
+				stat("frontier:mul")
+				{
+					emit(fmt.Sprintf("%s mul %s %s", name, u64s(fromBig(a, limbs)), u64s(fromBig(b, limbs))))
+					emit(fmt.Sprintf("%s mul %s %s", name, u64s(fromBig(b, limbs)), u64s(fromBig(a, limbs))))
+				}
+				if a.IsUint64() && limbs == 2 {
+					emit(fmt.Sprintf("%s mul64 %s %d", name, u64s(fromBig(b, limbs)), a.Uint64()))
+				}
+				if a.IsUint64() && b.IsUint64() && limbs == 1 {
+					emit(fmt.Sprintf("u64 mul64 %d %d", b.Uint64(), a.Uint64()))
+				}
+			}
+			// sums next to 2^W, differences next to 0
+			x := toBig(c20Val(rng, limbs))
+			for d := int64(-2); d <= 2; d++ {
+				y := new(big.Int).Sub(new(big.Int).Add(max, big.NewInt(d)), x) // x + y = 2^W - 1 + d
+				if fits(y) {
+					stat("frontier:add")
+					emit(fmt.Sprintf("%s add %s %s", name, u64s(fromBig(x, limbs)), u64s(fromBig(y, limbs))))
+					if y.IsUint64() && limbs == 2 {
+						emit(fmt.Sprintf("%s add64 %s %d", name, u64s(fromBig(x, limbs)), y.Uint64()))
+					}
+				}
+				z := new(big.Int).Add(x, big.NewInt(d)) // x - z = -d
+				if fits(z) {
+					stat("frontier:sub")
+					emit(fmt.Sprintf("%s sub %s %s", name, u64s(fromBig(x, limbs)), u64s(fromBig(z, limbs))))
+				}
+			}
+			// exact and nearly exact divisions (quotient digit corrections)
+			if limbs == 2 || (limbs == 4 && r%4 == 0) {
+				dv := toBig(c20Val(rng, limbs))
+				if rng.Intn(2) == 0 {
+					dv = new(big.Int).SetUint64(c20Limb(rng))
+				}
+				if dv.Sign() == 0 {
+					dv.SetInt64(3)
+				}
+				qq := new(big.Int).Div(toBig(c20Val(rng, limbs)), dv)
+				base := new(big.Int).Mul(qq, dv)
+				for _, rem := range []*big.Int{big.NewInt(0), big.NewInt(1), new(big.Int).Sub(dv, one)} {
+					u := new(big.Int).Add(base, rem)
+					if !fits(u) {
+						continue
+					}
+					stat("frontier:div")
+					op := "quorem"
+					if limbs == 4 {
+						op = "div"
+					}
+					emit(fmt.Sprintf("%s %s %s %s", name, op, u64s(fromBig(u, limbs)), u64s(fromBig(dv, limbs))))
+					if dv.IsUint64() && limbs == 2 {
+						emit(fmt.Sprintf("%s quorem64 %s %d", name, u64s(fromBig(u, limbs)), dv.Uint64()))
+					}
+				}
+			}
+		}
 	}
 }
 
